@@ -3,6 +3,7 @@ package c26
 
 import (
 	"fmt"
+	"google.golang.org/protobuf/types/known/anypb"
 	"strings"
 	"sync/atomic"
 
@@ -80,7 +81,7 @@ func fieldIn(m protoreflect.Message, fd protoreflect.FieldDescriptor) protorefle
 }
 
 func run(c *core.Ctx) {
-	c.Rule = "uniqueness: for 9 types, every ordered pair of (representative field | oneof member | extension) pieces, in JSON (each piece spelled with its JSON name and with its proto name: 4 spellings per pair) and in text format: naming a non-repeated field twice, or two members of one oneof, must be rejected; two different compatible fields must be accepted. Totality: every sequence of <=N tokens over JSON and text token alphabets (braces, brackets, separators, a known singular field name in both spellings, a repeated field name, two oneof member names, an extension name, an unknown name, scalar / string / literal values) and every byte string of <=4 over a 14-byte alphabet is decoded into 3 types without panic. Depth: documents nested to depth limit-1, limit, limit+1 through message fields, Struct/ListValue/Value and Any for RecursionLimit in {1,2,3,5}: deeper than the limit must be rejected"
+	c.Rule = "uniqueness: for 9 types, every ordered pair of (representative field | oneof member | extension) pieces, in JSON (each piece spelled with its JSON name and with its proto name: 4 spellings per pair) and in text format: naming a non-repeated field twice, or two members of one oneof, must be rejected; two different compatible fields must be accepted. Totality: every sequence of <=N tokens over JSON and text token alphabets (braces, brackets, separators, a known singular field name in both spellings, a repeated field name, two oneof member names, an extension name, an unknown name, scalar / string / literal values) and every byte string of <=4 over a 14-byte alphabet is decoded into 3 types without panic. Any: every document naming type_url or value twice (first occurrence empty or not), or mixing the expanded form with a plain field, at top level and nested, and JSON Any objects with a duplicated key, must be rejected. Depth: documents nested to depth limit-1, limit, limit+1 through message fields, Struct/ListValue/Value and Any for RecursionLimit in {1,2,3,5}: deeper than the limit must be rejected"
 	c.Exhaustive = true
 	var n atomic.Int64
 	types := []string{"goproto.proto.test.TestAllTypes", "goproto.proto.test3.TestAllTypes", "goproto.proto.testeditions.TestAllTypes", "opaque.goproto.proto.testeditions.TestAllTypes", "goproto.proto.test.TestAllExtensions", "pb3.Proto3Optional", "pb3.Oneofs", "pb2.Nests", "pb2.KnownTypes"}
@@ -192,12 +193,77 @@ func run(c *core.Ctx) {
 	c.Bounds["text_token_sequences"] = nt
 	c.Bounds["byte_strings"] = nb
 	// depth
+	anyDuplicates(c, &n)
 	depthFamilies(c, &n)
 	c.Eval(n.Load())
 	c.DistinctN(n.Load())
 }
 
 // depthFamilies nests documents and checks the RecursionLimit.
+// anyDuplicates: the fields of google.protobuf.Any are special-cased by both
+// decoders; naming one of them twice must be rejected whatever the values
+// (in particular when the first occurrence is empty), and the expanded form
+// must not be combined with the plain fields.
+func anyDuplicates(c *core.Ctx, n *atomic.Int64) {
+	const url = "type.googleapis.com/pb2.Nested"
+	vals := map[string][]string{"type_url": {`""`, `"` + url + `"`, `"x"`}, "value": {`""`, `"\n\001a"`, `"x"`}}
+	var docs []string
+	for _, f := range []string{"type_url", "value"} {
+		other := map[string]string{"type_url": "value", "value": "type_url"}[f]
+		for _, v1 := range vals[f] {
+			for _, v2 := range vals[f] {
+				for _, o := range []string{"", other + `: ` + vals[other][1] + " "} {
+					docs = append(docs, fmt.Sprintf("%s%s: %s %s: %s", o, f, v1, f, v2), fmt.Sprintf("%s: %s %s%s: %s", f, v1, o, f, v2))
+				}
+			}
+		}
+		for _, v := range vals[f] {
+			docs = append(docs, fmt.Sprintf("%s: %s [%s]: {}", f, v, url), fmt.Sprintf("[%s]: {} %s: %s", url, f, v))
+		}
+	}
+	docs = append(docs, fmt.Sprintf("[%s]: {} [%s]: {}", url, url))
+	for _, d := range docs {
+		for _, wrap := range []struct {
+			name string
+			mk   func() proto.Message
+			doc  string
+		}{{"google.protobuf.Any", func() proto.Message { return &anypb.Any{} }, d}, {"pb2.KnownTypes.opt_any", func() proto.Message { return univ.MT("pb2.KnownTypes").New().Interface() }, "opt_any: {" + d + "}"}} {
+			m := wrap.mk()
+			var err error
+			if c.Guard(func() string { return "prototext.Unmarshal " + wrap.doc }, func() { err = prototext.Unmarshal([]byte(wrap.doc), m) }) {
+				continue
+			}
+			n.Add(1)
+			if err == nil {
+				c.Violation(fmt.Sprintf("prototext accepts an Any that names a field twice or mixes expanded and plain form: target=%s doc=%s", wrap.name, wrap.doc), nil)
+			}
+		}
+	}
+	jdocs := []string{
+		`{"@type":"","@type":"type.googleapis.com/pb2.Nested"}`, `{"@type":"type.googleapis.com/pb2.Nested","@type":"type.googleapis.com/pb2.Nested"}`,
+		`{"@type":"type.googleapis.com/pb2.Nested","@type":""}`,
+		`{"@type":"type.googleapis.com/google.protobuf.Duration","value":"1s","value":"2s"}`, `{"value":"1s","@type":"type.googleapis.com/google.protobuf.Duration","value":"1s"}`,
+		`{"@type":"type.googleapis.com/pb2.Nested","optString":"","optString":"a"}`,
+	}
+	for _, d := range jdocs {
+		for _, wrap := range []struct {
+			name string
+			mk   func() proto.Message
+			doc  string
+		}{{"google.protobuf.Any", func() proto.Message { return &anypb.Any{} }, d}, {"pb2.KnownTypes.optAny", func() proto.Message { return univ.MT("pb2.KnownTypes").New().Interface() }, `{"optAny":` + d + `}`}} {
+			m := wrap.mk()
+			var err error
+			if c.Guard(func() string { return "protojson.Unmarshal " + wrap.doc }, func() { err = protojson.Unmarshal([]byte(wrap.doc), m) }) {
+				continue
+			}
+			n.Add(1)
+			if err == nil {
+				c.Violation(fmt.Sprintf("protojson accepts an Any object that names a key twice: target=%s doc=%s", wrap.name, wrap.doc), nil)
+			}
+		}
+	}
+}
+
 func depthFamilies(c *core.Ctx, n *atomic.Int64) {
 	type fam struct {
 		name  string
